@@ -472,9 +472,10 @@ def condition_discipline(ctx):
     acq = [c for c in own_calls(f.node) if (dotted(c.func) or '').endswith('_semaphore.acquire')]
     ctx.need(acq, 'TaskSemaphore.acquire no longer calls the underlying semaphore')
     for c in acq:
-        par = c._parent
-        ok = isinstance(par, ast.UnaryOp) and isinstance(par._parent, ast.If) and any(isinstance(s, ast.Raise) for s in par._parent.body) \
-            and c.args and norm(c.args[0]) == 'blocking'
+        # some raise of the function is taken exactly when the underlying acquire returned false (the result tested directly or
+        # through a local that is only tested: q.guards substitutes such flags)
+        rs_ = [r for r in own_nodes(f.node) if isinstance(r, ast.Raise) and r.exc is not None and 'NoResourcesAvailable' in norm(r.exc)]
+        ok = any(q.guards_imply(q.guards(r), f'not {norm(c)}') and len(q.guards(r)) == 1 for r in rs_) and bool(c.args) and norm(c.args[0]) == f.params[2 if len(f.params) > 2 else -1]
         ctx.ob(f, c, ok, 'a failed (non-blocking) acquire must raise NoResourcesAvailable and the blocking flag must be forwarded')
 
 
